@@ -1,4 +1,8 @@
 From Coq Require Extraction ExtrOcamlBasic.
 From RdpV Require Import Base Msg LayoutsGlobal LayoutsConnect Link Tpkt Global ClientPdus StrictPdu.
+From RdpV Require Import Rc4 Md5 Md4 Hmac Utf Ntlm NtlmSeal DerRead CsspGate CsspGateExec StrictNla.
 Extraction Language OCaml.
-Extraction "../ocaml/pdus/model.ml" emitted_session emit_cr run_writes core_bytes version_arms_swapped is_scalar strict_parse.
+Extraction "../ocaml/pdus/model.ml" emitted_session emit_cr run_writes core_bytes version_arms_swapped is_scalar strict_parse
+  md4 hmac_md5 ntlm_new ntlm_from_hash create_negotiate_message read_challenge_message cssp_connect_c
+  x_create_ts_request x_create_ts_authenticate x_create_ts_credentials x_create_ts_authinfo
+  exactly strict_parse_nla sp_negotiate sp_authenticate sp_ts_request sp_ts_credentials.
